@@ -700,6 +700,10 @@ func (s *TxStore) Rollback(tx mwdb.DBTransaction, height uint64) error {
 		}
 
 		heightsToRemove = append(heightsToRemove, rbBlock.Height)
+		rbTxSet := make(map[wire.Hash]struct{}, len(rbBlock.transactions))
+		for _, h := range rbBlock.transactions {
+			rbTxSet[h] = struct{}{}
+		}
 
 		for i := len(rbBlock.transactions) - 1; i >= 0; i-- {
 			txHash := &rbBlock.transactions[i]
@@ -904,6 +908,13 @@ func (s *TxStore) Rollback(tx mwdb.DBTransaction, height uint64) error {
 					return err
 				}
 				if cred == nil {
+					if _, sameBlock := rbTxSet[prevOut.Hash]; sameBlock {
+						// the parent is part of this very block. The block record lists
+						// transactions in the order they became relevant (a wallet imported
+						// later appends its own), not in block order, so the parent may have
+						// been rolled back first and its credits are gone with it.
+						continue
+					}
 					logging.CPrint(logging.ERROR, "unexpected unspend non-existence credit",
 						logging.LogFormat{
 							"tx":        rec.Hash.String(),
